@@ -1,17 +1,20 @@
 #!/bin/bash
 # usage: fuzz/run.sh <property> <target> <runs-per-job> <jobs> <seed>
 # coverage-guided campaign with the oracle inside the target; prints a JSON summary on the last line
+# env FZ_FEATURES / FZ_TAG: build the targets with these features of the fuzz crate into target-$FZ_TAG (own corpus and artifact directories)
 # exit 0 no crash, 1 crash (artifact path printed as VIOLATION line), 2 harness fault
 set -u
 PROP="$1"; T="$2"; RUNS="$3"; JOBS="$4"; SEED="$5"
 cd "$(dirname "$0")"
 export RUSTFLAGS="--cfg a4lg_ffuzzy_verif" CARGO_NET_OFFLINE=true
 [ -f Cargo.lock ] || cp ../Cargo.lock Cargo.lock
-if ! cargo +nightly fuzz build "$T" > "../target/fuzz-build.$T.log" 2>&1; then
-  echo "BUILD FAILED (fuzz target $T) - harness fault" >&2; tail -20 "../target/fuzz-build.$T.log" >&2; exit 2
+TAG="${FZ_TAG:-}"; SFX="${TAG:+-$TAG}"
+FEAT=(); [ -n "${FZ_FEATURES:-}" ] && FEAT=(-O --features "$FZ_FEATURES" --target-dir "target$SFX")   # -O: no debug assertions, otherwise the unsafe paths are compiled out
+if ! cargo +nightly fuzz build "${FEAT[@]}" "$T" > "../target/fuzz-build$SFX.$T.log" 2>&1; then
+  echo "BUILD FAILED (fuzz target $T) - harness fault" >&2; tail -20 "../target/fuzz-build$SFX.$T.log" >&2; exit 2
 fi
-BIN="target/x86_64-unknown-linux-gnu/release/$T"
-WORK="corpus-run/$T"; ART="artifacts/$T"
+BIN="target$SFX/x86_64-unknown-linux-gnu/release/$T"
+WORK="corpus-run$SFX/$T"; ART="artifacts$SFX/$T"
 rm -rf "$WORK"; mkdir -p "$WORK" "$ART"
 cp ../corpus/$T/* "$WORK"/ 2>/dev/null
 [ "$SEED" = "0" ] && SEED=1   # libFuzzer: 0 means random
